@@ -578,7 +578,7 @@ def run(ck: core.Check):
         ck.cov["sequence_parameters_inventory"] = c01_variadic.generate()
     except Exception as e:  # noqa: BLE001
         ck.broken("generated", "C01 sequence-parameter inventory (translator/c01_variadic.py)", f"{type(e).__name__}: {e}")
-    ck.lean(["SpoxModel.Props.C01"], audit="SpoxModel.Audit.C01")
+    ck.lean(["SpoxModel.Props.C01", "SpoxModel.Props.C01Build"], audit="SpoxModel.Audit.C01")
     if entry is not None:
         # the Lean lists say what the harness varies: keep them honest against the harness's own tables
         varied = sorted({k for kw in TO_MODEL_KW for k in kw})
@@ -599,7 +599,7 @@ def run(ck: core.Check):
             ck.broken("generated", "C01 could not compare the exercised-option lists", f"{type(e).__name__}: {e}")
         ck.cov["entry_options_inventory"] = {k: [list(x) if isinstance(x, tuple) else x for x in v] for k, v in entry.items()}
     if ck.thorough:
-        ck.leanchecker(["SpoxModel.Props.C01"])
+        ck.leanchecker(["SpoxModel.Props.C01", "SpoxModel.Props.C01Build"])
 
     rng = ck.rng
     n_random = ck.pick(360, 6000)
@@ -685,6 +685,11 @@ def run(ck: core.Check):
     hist_dims = collections.Counter()
     hist_mut = collections.Counter()
     ev_reqs: list = []
+    bridge_reqs: list = []
+    bridge_meta: list = []
+
+    def problems_of(res_):
+        return bool(res_["problems"]) or res_["emission"] is None
     ev_obs: list = []
     variant_hist = collections.Counter()
     for pi, (prog, origin) in enumerate(programs):
@@ -902,6 +907,16 @@ def run(ck: core.Check):
                 continue
             queue_lean(prog, R, em, res["model"], [int(i.name[2:]) for i in res["model"].graph.input],
                        (pi, style, rseed, origin), stats["builds"] % 4 == 0)
+            if style == styles[0] and not problems_of(res):
+                # the Builder ALGORITHM model (C04's BuildAlg.build) on the same program: hypotheses of
+                # C01Build.built_model_computes_dataflow and its emission vs the real one
+                try:
+                    b_args = [int(i.name[2:]) for i in res["model"].graph.input]
+                    b_res = [prog["outputs"][int(o.name[3:])] for o in res["model"].graph.output]
+                    bridge_reqs.append({"bridge": L.to_buildalg(prog, b_args, b_res)})
+                    bridge_meta.append((pi, style, rseed, origin, L.normal_emission(prog, em)))
+                except Exception as e:  # noqa: BLE001
+                    ck.broken("correspondence", "C01/C04 bridge request", f"{origin}: {type(e).__name__}: {e}")
             # the same emission questions for the models of the drop_unused_inputs builds of this case
             for vmodel, vargs, vcaller in drop_models:
                 try:
@@ -964,6 +979,33 @@ def run(ck: core.Check):
                     ck.broken("correspondence", "C01 renaming: values differ between creation-order and abstract numbering",
                               f"program #{meta[0]} style={meta[1]} rseed={meta[2]}")
         prev = (o, meta)
+
+    # --- bridge: the Builder algorithm model on the same programs (tie for Props/C01Build.lean)
+    try:
+        bouts = ck.driver().ask_many("C01", bridge_reqs) if bridge_reqs else []
+    except Exception as e:  # noqa: BLE001
+        ck.broken("correspondence", "C01 bridge driver", str(e)[:300])
+        bouts = []
+    for o, meta in zip(bouts, bridge_meta):
+        bprog = programs[meta[0]][0]
+        tagb = None
+        if "error" in o:
+            tagb = "driver-error"
+        elif not (o.get("wf") and o.get("built")):
+            tagb = "algorithm-model-does-not-build (WFb / build)"
+        elif not o.get("mainClean"):
+            tagb = "mainCleanB-false-on-a-front-end-program"
+        elif not o.get("valid"):
+            tagb = "validG-rejects-the-algorithm-model-emission"
+        elif L.normal_emission(bprog, o["emit"], attr_order=True) != meta[4]:
+            tagb = "algorithm-model-emission-differs-from-the-real-emission"
+        if tagb:
+            mism["bridge: " + tagb] += 1
+            if mism["bridge: " + tagb] <= 2:
+                ck.broken("correspondence", f"C01/C04 bridge: {tagb}",
+                          f"program #{meta[0]} ({meta[3]}) style={meta[1]} rseed={meta[2]} answer={json.dumps(o)[:300]} real={json.dumps(meta[4])[:300]}")
+        else:
+            stats["bridge_ok"] += 1
 
     # --- caller-owned containers: the model's snapshots vs what the constructed nodes hold after the mutations
     try:
@@ -1061,6 +1103,7 @@ def run(ck: core.Check):
                 "caller_owned_lists_handed_to_constructors": stats["caller_owned_containers"],
                 "caller_mutations_after_construction": dict(hist_mut),
                 "container_probes_passed": dict(probe_hist),
+                "builder_algorithm_model_emission_equals_real_and_hypotheses_hold": stats["bridge_ok"],
                 "container_event_traces_compared_with_model": stats["container_traces_compared"],
                 "emitted_nodes": stats["emitted_nodes"],
                 "emitted_graphs": stats["emitted_graphs"],
